@@ -100,7 +100,7 @@ def newton_reference(fmath, ystar, leaves_fn, steps=3):
 
 def table(ctx, thorough):
     n = 0
-    kinds = ["pure", "nn", "edit", "mixed"] + (["editnn", "sib", "msib"] if thorough else [])
+    kinds = ["pure", "nn", "edit", "mixed"] + (["editnn", "sib", "msib", "msib3"] if thorough else ["msib3"])
     for size in ((3, 7) if True else (3,)):
         W, c = base_tensors(ctx.seed, n=size)
         for functional, mname in (("rootfinder", "root"), ("equilibrium", "equil"), ("minimize", "obj")):
